@@ -83,6 +83,11 @@ def cellsFitF64 (sp : Array Val) : Bool :=
   sp.all fun v => match v with
     | .num n e => fitsFloat 64 (n, e) || decide (n.natAbs > 2 ^ 100)     -- the UNSEEN sentinels are exact
     | .recd l => l.all fun x => fitsFloat 64 x || decide (x.1.natAbs > 2 ^ 100)
+    -- results of an earlier mean / std (exact rationals, roots) or an unpredictable value: the exact
+    -- model does not reduce them again (a chained degrade is discarded, not mispredicted)
+    | .rat _ _ => false
+    | .sqrtRat _ _ => false
+    | .poison => false
     | _ => true
 
 /-- `_degrade(nside_out, reduction, weights)` for `nside_coverage ≤ nside_out < nside_sparse` -/
